@@ -839,3 +839,147 @@ Proof.
     (marshal_flags SF (flag_put SF (submit_vals (submit_first_octet t)) VPFname (vpf_bits (s_vp t))) 0).
   rewrite E. unfold layout_submit. rewrite app_nil_r. cbn [app]. reflexivity.
 Qed.
+
+(* ------------------------------------------------------------------ the decoded values are the standard's *)
+(* (decoded address = digits as ASCII text with TON/NPI of the type-of-address octet; PID; DCS;
+   civil time 2000+yy.. with the signed quarter-hour offset; validity period in seconds per
+   9.2.3.12; user data octets, zero-filled up to TP-UDL) *)
+Theorem deliver_values t :
+  deliver_wf t -> is_numeric (d_oa t) -> t_zneg (d_scts t) = false ->
+  exists fl sc oa ts ud,
+    sms_unmarshal (layout_deliver t) =
+      Ok ("Deliver"%string, [TVAddr sc; TVFlags fl; TVAddr oa; TVByte (d_pid t); TVByte (d_dcs t); TVTime ts; TVBytes ud]) /\
+    sc = {| a_npi := sa_npi (d_sc t); a_ton := sa_ton (d_sc t); a_no := ascii_digits (digits_of (d_sc t)) |} /\
+    oa = {| a_npi := sa_npi (d_oa t); a_ton := sa_ton (d_oa t); a_no := ascii_digits (digits_of (d_oa t)) |} /\
+    time_civil ts = ((2000 + Z.of_N (t_yy (d_scts t)))%Z, Z.of_N (t_mo (d_scts t)), Z.of_N (t_dd (d_scts t)),
+                     Z.of_N (t_hh (d_scts t)), Z.of_N (t_mi (d_scts t)), Z.of_N (t_ss (d_scts t)), time_offset_q (d_scts t)) /\
+    ud = ud_octets (d_ud t) ++ repeat 0 (N.to_nat (udl (d_ud t)) - List.length (ud_octets (d_ud t))).
+Proof.
+  intros Hwf Hnum Hz. do 5 eexists. split; [apply deliver_decode; assumption|].
+  split; [reflexivity|]. split; [reflexivity|]. split; [|reflexivity].
+  apply time_value_spec; [apply Hwf|exact Hz].
+Qed.
+
+Definition vp_seconds (v : s_validity) : option N :=
+  match v with VpRelative x => Some (rel_seconds x) | VpEnhanced e => Some (enh_seconds e) | _ => None end.
+Definition vp_decoded_seconds (v : vp) : option N :=
+  match v with VPRel d => Some d | VPEnh d _ => Some d | _ => None end.
+
+Theorem submit_values t :
+  submit_wf t -> is_numeric (s_da t) -> vp_known_ok (s_vp t) ->
+  exists fl da v ud,
+    sms_unmarshal (layout_submit t) =
+      Ok ("Submit"%string, [TVAddr addr0; TVFlags fl; TVByte (s_mr t); TVAddr da; TVByte (s_pid t); TVByte (s_dcs t); TVVP v; TVBytes ud]) /\
+    da = {| a_npi := sa_npi (s_da t); a_ton := sa_ton (s_da t); a_no := ascii_digits (digits_of (s_da t)) |} /\
+    vpf_of v = vpf_bits (s_vp t) /\ vp_decoded_seconds v = vp_seconds (s_vp t) /\
+    (forall ts, s_vp t = VpAbsolute ts -> exists x, v = VPAbs x /\
+        time_civil x = ((2000 + Z.of_N (t_yy ts))%Z, Z.of_N (t_mo ts), Z.of_N (t_dd ts), Z.of_N (t_hh ts), Z.of_N (t_mi ts), Z.of_N (t_ss ts), time_offset_q ts)) /\
+    (forall e, s_vp t = VpEnhanced e -> v = VPEnh (enh_seconds e) (enh_indicator e)) /\
+    ud = ud_octets (s_ud t) ++ repeat 0 (N.to_nat (udl (s_ud t)) - List.length (ud_octets (s_ud t))).
+Proof.
+  intros Hwf Hnum Hk. do 4 eexists. split; [apply submit_decode; assumption|].
+  split; [reflexivity|]. split; [apply vpf_of_vp_val|].
+  split; [destruct (s_vp t); reflexivity|].
+  split; [|split; [|reflexivity]].
+  - intros ts E. destruct Hwf as [_ [_ [_ [_ [Hvp _]]]]]. rewrite E in *. eexists. split; [reflexivity|].
+    apply time_value_spec; [exact Hvp|exact Hk].
+  - intros e E. rewrite E. reflexivity.
+Qed.
+
+(* ------------------------------------------------------------------ witnesses: the known classes and the repaired defects *)
+Definition w_sc : s_addr := {| sa_ton := 1; sa_npi := 1; sa_val := Digits [3; 1; 6; 2; 4; 0; 0; 0; 0; 0; 0] |}.
+Definition w_oa : s_addr := {| sa_ton := 1; sa_npi := 1; sa_val := Digits [0; 0; 4; 9; 1; 7; 0; 0; 9; 8] |}.   (* even count, leading zeros *)
+Definition w_time : s_time := {| t_yy := 24; t_mo := 2; t_dd := 29; t_hh := 23; t_mi := 59; t_ss := 58; t_zneg := false; t_zq := 8 |}.
+Definition w_deliver : s_deliver :=
+  {| d_sc := w_sc; d_mms := true; d_bit3 := false; d_bit4 := false; d_sri := true; d_udhi := false; d_rp := false;
+     d_oa := w_oa; d_pid := 0; d_dcs := 0; d_scts := w_time; d_ud := UdSeptets [72; 101; 108; 108; 111; 32; 119; 111; 114] |}.
+Definition w_submit : s_submit :=
+  {| s_rd := true; s_srr := false; s_udhi := true; s_rp := true; s_mr := 7; s_da := w_oa; s_pid := 0; s_dcs := 4;
+     s_vp := VpRelative 144; s_ud := UdOctets [1; 2; 3] |}.
+
+Ltac wf_tac := repeat (split || constructor || lia || reflexivity || (intro; discriminate) || exact I).
+Lemma w_deliver_wf : deliver_wf w_deliver. Proof. unfold deliver_wf, sc_wf, addr_wf, time_wf, ud_wf; cbn. wf_tac. Qed.
+Lemma w_submit_wf : submit_wf w_submit. Proof. unfold submit_wf, addr_wf, vp_wf, ud_wf; cbn. wf_tac. Qed.
+
+(* non-vacuity: these inhabit the hypotheses of the round-trip theorems *)
+
+Lemma w_deliver_example :
+  sms_remarshal (layout_deliver w_deliver) = Ok (layout_deliver w_deliver) /\
+  layout_deliver w_deliver = hx "07911326040000F0240A91009471008900004220923295858009C8329BFD06DDDF72".
+Proof.
+  split; [|vm_compute; reflexivity].
+  apply deliver_roundtrip; [exact w_deliver_wf|exact I|reflexivity|reflexivity|reflexivity|].
+  unfold ud_ends_in_zero. vm_compute. discriminate.
+Qed.
+Lemma w_submit_example :
+  sms_remarshal (layout_submit w_submit) = Ok (layout_submit w_submit) /\
+  layout_submit w_submit = hx "00D5070A91009471008900049003010203".
+Proof.
+  split; [|vm_compute; reflexivity].
+  apply submit_roundtrip; [exact w_submit_wf|exact I|exact I|]. unfold ud_ends_in_zero. vm_compute. discriminate.
+Qed.
+
+(* D24: TP-UDHI set in an SMS-DELIVER is lost *)
+Definition w_d24 : s_deliver :=
+  {| d_sc := w_sc; d_mms := true; d_bit3 := false; d_bit4 := false; d_sri := false; d_udhi := true; d_rp := false;
+     d_oa := w_oa; d_pid := 0; d_dcs := 0; d_scts := w_time; d_ud := d_ud w_deliver |}.
+Lemma deliver_udhi_refuted :
+  deliver_wf w_d24 /\ d_udhi w_d24 = true /\ sms_remarshal (layout_deliver w_d24) <> Ok (layout_deliver w_d24) /\
+  exists out, sms_remarshal (layout_deliver w_d24) = Ok out /\ nth 8 out 0 = 4 /\ nth 8 (layout_deliver w_d24) 0 = 68.
+Proof.
+  split; [unfold deliver_wf, sc_wf, addr_wf, time_wf, ud_wf; cbn; wf_tac|]. split; [reflexivity|].
+  split; [vm_compute; discriminate|]. eexists. split; [vm_compute; reflexivity|]. split; reflexivity.
+Qed.
+
+(* D19: negative zone.  -20 quarter hours (GMT-5): decoded as +100 quarter hours and re-encoded as
+   eight octets; -1 quarter hour: the octets survive but the decoded offset is +81 quarter hours *)
+Definition w_time_neg (zq : N) : s_time := {| t_yy := 24; t_mo := 2; t_dd := 29; t_hh := 23; t_mi := 59; t_ss := 58; t_zneg := true; t_zq := zq |}.
+Definition w_d19 (zq : N) : s_deliver :=
+  {| d_sc := w_sc; d_mms := true; d_bit3 := false; d_bit4 := false; d_sri := false; d_udhi := false; d_rp := false;
+     d_oa := w_oa; d_pid := 0; d_dcs := 0; d_scts := w_time_neg zq; d_ud := d_ud w_deliver |}.
+Lemma deliver_negative_zone_refuted :
+  deliver_wf (w_d19 20) /\ deliver_wf (w_d19 1) /\
+  sms_remarshal (layout_deliver (w_d19 20)) <> Ok (layout_deliver (w_d19 20)) /\
+  (exists vs x, sms_unmarshal (layout_deliver (w_d19 1)) = Ok ("Deliver"%string, vs) /\ nth_error vs 5 = Some (TVTime x) /\
+     snd (time_civil x) = 81%Z /\ time_offset_q (d_scts (w_d19 1)) = (-1)%Z).
+Proof.
+  split; [unfold deliver_wf, sc_wf, addr_wf, time_wf, ud_wf; cbn; wf_tac|].
+  split; [unfold deliver_wf, sc_wf, addr_wf, time_wf, ud_wf; cbn; wf_tac|].
+  split; [vm_compute; discriminate|].
+  do 2 eexists. split; [vm_compute; reflexivity|]. split; [reflexivity|]. split; vm_compute; reflexivity.
+Qed.
+Definition w_d19_vp : s_submit :=
+  {| s_rd := false; s_srr := false; s_udhi := false; s_rp := false; s_mr := 7; s_da := w_oa; s_pid := 0; s_dcs := 4;
+     s_vp := VpAbsolute (w_time_neg 20); s_ud := UdOctets [1; 2; 3] |}.
+Lemma submit_negative_zone_refuted :
+  submit_wf w_d19_vp /\ sms_remarshal (layout_submit w_d19_vp) <> Ok (layout_submit w_d19_vp).
+Proof. split; [unfold submit_wf, addr_wf, vp_wf, time_wf, ud_wf; cbn; wf_tac|vm_compute; discriminate]. Qed.
+
+(* D22: 8-bit user data "A" 0x00 comes back as "A" with TP-UDL still 2 *)
+Definition w_d22 : s_submit :=
+  {| s_rd := false; s_srr := false; s_udhi := false; s_rp := false; s_mr := 7; s_da := w_oa; s_pid := 0; s_dcs := 4;
+     s_vp := VpAbsent; s_ud := UdOctets [65; 0] |}.
+Lemma trailing_zero_refuted :
+  submit_wf w_d22 /\ ud_ends_in_zero (s_ud w_d22) /\
+  sms_remarshal (layout_submit w_d22) = Ok (removelast (layout_submit w_d22)).
+Proof. split; [unfold submit_wf, addr_wf, vp_wf, ud_wf; cbn; wf_tac|]. split; vm_compute; reflexivity. Qed.
+
+(* D21: alphanumeric address "Info" (4 septets, 7 useful semi-octets): length octet comes back as 8 *)
+Definition w_alnum : s_addr := {| sa_ton := 5; sa_npi := 0; sa_val := Alnum [73; 110; 102; 111] |}.
+Definition w_d21 : s_submit :=
+  {| s_rd := false; s_srr := false; s_udhi := false; s_rp := false; s_mr := 7; s_da := w_alnum; s_pid := 0; s_dcs := 4;
+     s_vp := VpAbsent; s_ud := UdOctets [1; 2; 3] |}.
+Lemma alnum_odd_refuted :
+  submit_wf w_d21 /\ nth 3 (layout_submit w_d21) 0 = 7 /\
+  exists out, sms_remarshal (layout_submit w_d21) = Ok out /\ nth 3 out 0 = 8.
+Proof.
+  split; [unfold submit_wf, addr_wf, vp_wf, ud_wf; cbn; wf_tac|]. split; [reflexivity|].
+  eexists. split; [vm_compute; reflexivity|reflexivity].
+Qed.
+
+(* D20 (repaired): before the fix the length octet of a numeric address was 2*octets-1 — for the
+   ten digits of w_oa that is 9 — the model of the repaired code writes 10 *)
+Lemma numeric_length_legacy_refuted :
+  addr_write_legacy_len (addr_num_val w_oa (digits_of w_oa)) 5 = 9 /\
+  hd 0 (addr_write g7_table (addr_num_val w_oa (digits_of w_oa))) = 10 /\ hd 0 (tp_addr w_oa) = 10.
+Proof. repeat split; vm_compute; reflexivity. Qed.
